@@ -500,3 +500,158 @@ Proof.
   - intros [Hp Hn]. split; [exact Hp|]. intros [[T [E Ha]]|Hb]; [|auto].
     subst S. apply (N1 T Hp).
 Qed.
+
+(** the three unary operators on predicates, as documented ([l] = level of the variable) *)
+Definition psub (o : zsub) (l : nat) (P : fpred) : fpred :=
+  match o with
+  | ZSubset0 => fun S => P S /\ ~ In l S
+  | ZSubset1 => fun S => exists S0, P S0 /\ In l S0 /\ S = sremove l S0
+  | ZChange => fun S => (exists S0, P S0 /\ ~ In l S0 /\ S = sinsert l S0) \/
+                        (exists S0, P S0 /\ In l S0 /\ S = sremove l S0)
+  end.
+
+Lemma psub_ext : forall o l P P', peq P P' -> peq (psub o l P) (psub o l P').
+Proof.
+  intros o l P P' HP S. destruct o; simpl.
+  - rewrite (HP S). reflexivity.
+  - split; intros [S0 [A R]]; exists S0; (split; [apply HP; exact A | exact R]).
+  - split; (intros [[S0 [A R]]|[S0 [A R]]]; [left | right]; exists S0; (split; [apply HP; exact A | exact R])).
+Qed.
+
+(** ** Views of references *)
+
+Lemma zget_total : forall s r, ref_ok s r -> exists v, zget s r = Some v.
+Proof.
+  intros s [t|id]; simpl; [intros [v E] | intros [nd E]]; rewrite E; eauto.
+Qed.
+
+Lemma zop_code_inj : forall o o', zop_code o = zop_code o' -> o = o'.
+Proof. intros [] [] E; simpl in E; try discriminate; reflexivity. Qed.
+
+Lemma zsub_code_inj : forall o o', zsub_code o = zsub_code o' -> o = o'.
+Proof. intros [] [] E; simpl in E; try discriminate; reflexivity. Qed.
+
+(** everything the recursion needs to know about an inner operand *)
+Lemma znode_facts : forall s id nd P, ZbddOK s -> ZDen s (RN id) P -> find_node s id = Some nd ->
+  nstored nd = nlevel nd /\ nlevel nd < nlevels s /\ rlevel s (RN id) = nlevel nd /\
+  exists hi lo PA PB, nchildren nd = [hi; lo] /\
+    ZDen s (eref hi) PA /\ ZDen s (eref lo) PB /\
+    nlevel nd < rlevel s (eref hi) /\ nlevel nd < rlevel s (eref lo) /\
+    peq P (node_pred (nlevel nd) PA PB) /\ sup (nlevel nd) PA /\ sup (nlevel nd) PB.
+Proof.
+  intros s id nd P B D E. pose proof (zo_wf s B) as H.
+  split; [apply (wf_stored s H id nd E)|]. split; [apply (wf_level s H id nd E)|].
+  split; [apply (rlevel_node s id nd E)|].
+  destruct (zden_node_inv s id nd P B D E) as (hi & lo & PA & PB & Ec & DA & DB & Lh & Ll & Hp).
+  exists hi, lo, PA, PB. repeat (split; [assumption|]). split.
+  - intros S HS. apply (zden_below s (eref hi) PA _ S B DA Lh HS).
+  - intros S HS. apply (zden_below s (eref lo) PB _ S B DB Ll HS).
+Qed.
+
+(** the three-way level comparison of the code, with [None] = [LevelNo::MAX] for terminals *)
+Lemma lcmp_cases : forall s f g vf vg, ZbddOK s -> zget s f = Some vf -> zget s g = Some vg ->
+  match lcmp (vlevel vf) (vlevel vg) with
+  | Lt => exists id nd, f = RN id /\ find_node s id = Some nd /\ vf = ZI nd /\
+                        nlevel nd < rlevel s g
+  | Gt => exists id nd, g = RN id /\ find_node s id = Some nd /\ vg = ZI nd /\
+                        nlevel nd < rlevel s f
+  | Eq => (exists idf ndf idg ndg, f = RN idf /\ g = RN idg /\
+             find_node s idf = Some ndf /\ find_node s idg = Some ndg /\
+             vf = ZI ndf /\ vg = ZI ndg /\ nlevel ndf = nlevel ndg) \/
+          (exists tf tg, f = RT tf /\ g = RT tg)
+  end.
+Proof.
+  intros s f g vf vg B Ef Eg. pose proof (zo_wf s B) as H.
+  destruct f as [tf|idf], g as [tg|idg]; simpl in Ef, Eg.
+  - destruct (term_val s tf); [|discriminate]. destruct (term_val s tg); [|discriminate].
+    inversion Ef; inversion Eg; subst. simpl. right. eauto.
+  - destruct (term_val s tf); [|discriminate].
+    destruct (find_node s idg) as [ndg|] eqn:Eng; [|discriminate].
+    inversion Ef; inversion Eg; subst. simpl. exists idg, ndg.
+    repeat split; auto. apply (wf_level s H idg ndg Eng).
+  - destruct (find_node s idf) as [ndf|] eqn:Enf; [|discriminate].
+    destruct (term_val s tg); [|discriminate].
+    inversion Ef; inversion Eg; subst. simpl. exists idf, ndf.
+    repeat split; auto. apply (wf_level s H idf ndf Enf).
+  - destruct (find_node s idf) as [ndf|] eqn:Enf; [|discriminate].
+    destruct (find_node s idg) as [ndg|] eqn:Eng; [|discriminate].
+    inversion Ef; inversion Eg; subst. simpl.
+    rewrite (wf_stored s H idf ndf Enf), (wf_stored s H idg ndg Eng).
+    destruct (Nat.compare_spec (nlevel ndf) (nlevel ndg)) as [Hc|Hc|Hc].
+    + left. exists idf, ndf, idg, ndg. repeat split; auto.
+    + exists idf, ndf. repeat split; auto. rewrite Eng. exact Hc.
+    + exists idg, ndg. repeat split; auto. rewrite Enf. exact Hc.
+Qed.
+
+(** ** The terminal cases *)
+
+Lemma ref_eqb_false : forall a b, ref_eqb a b = false -> a <> b.
+Proof. intros a b E Hab. apply ref_eqb_eq in Hab. congruence. Qed.
+
+(** a terminal reference that is not the Empty terminal is the Base terminal *)
+Lemma not_empty_base : forall s te t, ZbddOK s -> term_val s te = Some 0%N -> ref_ok s (RT t) ->
+  RT t <> RT te -> term_val s t = Some 1%N.
+Proof.
+  intros s te t B Ee O Hne. destruct (zterm_cases s t B O) as [E|E]; [|exact E].
+  exfalso. apply Hne. f_equal. apply (term_val_inj s t te 0%N (zo_wf s B) E Ee).
+Qed.
+
+Lemma zterminal_ok : forall s op f g P Q, ZbddOK s -> ZDen s f P -> ZDen s g Q ->
+  match zterminal s op f g with
+  | ZTFail => False
+  | ZTDone r => ZDen s r (pbin op P Q)
+  | ZTGo => f <> g /\ (forall t, f = RT t -> term_val s t = Some 1%N) /\
+            (forall t, g = RT t -> term_val s t = Some 1%N)
+  end.
+Proof.
+  intros s op f g P Q B DF DG.
+  destruct (zempty_spec s B) as [te [Ee Et]].
+  pose proof (zden_empty s te B Et) as DE.
+  assert (Hgo : f <> g -> f <> RT te -> g <> RT te ->
+          f <> g /\ (forall t, f = RT t -> term_val s t = Some 1%N) /\
+          (forall t, g = RT t -> term_val s t = Some 1%N)).
+  { intros A1 A2 A3. split; [exact A1|]. split; intros t ->.
+    - apply (not_empty_base s te t B Et (zden_ok _ _ _ DF) A2).
+    - apply (not_empty_base s te t B Et (zden_ok _ _ _ DG) A3). }
+  unfold zterminal. destruct op; rewrite ?Ee.
+  - (* union *)
+    destruct (ref_eqb f g) eqn:E1; simpl.
+    + apply ref_eqb_eq in E1. subst g. apply (zden_ext s f P); [exact DF|].
+      pose proof (zden_unique s f P Q DF DG) as Hpq. intros S. simpl. rewrite <- (Hpq S). tauto.
+    + destruct (ref_eqb g (RT te)) eqn:E2.
+      * apply ref_eqb_eq in E2. subst g. apply (zden_ext s f P); [exact DF|].
+        pose proof (zden_unique s _ Q pempty DG DE) as Hq. intros S. simpl. rewrite (Hq S).
+        unfold pempty. tauto.
+      * destruct (ref_eqb f (RT te)) eqn:E3.
+        -- apply ref_eqb_eq in E3. subst f. apply (zden_ext s g Q); [exact DG|].
+           pose proof (zden_unique s _ P pempty DF DE) as Hp. intros S. simpl. rewrite (Hp S).
+           unfold pempty. tauto.
+        -- apply Hgo; apply ref_eqb_false; assumption.
+  - (* intsec *)
+    destruct (ref_eqb f g) eqn:E1.
+    + apply ref_eqb_eq in E1. subst g. apply (zden_ext s f P); [exact DF|].
+      pose proof (zden_unique s f P Q DF DG) as Hpq. intros S. simpl. rewrite <- (Hpq S). tauto.
+    + destruct (ref_eqb f (RT te)) eqn:E2; simpl.
+      * apply ref_eqb_eq in E2. subst f. apply (zden_ext s _ pempty); [exact DE|].
+        pose proof (zden_unique s _ P pempty DF DE) as Hp. intros S. simpl. rewrite (Hp S).
+        unfold pempty. tauto.
+      * destruct (ref_eqb g (RT te)) eqn:E3.
+        -- apply ref_eqb_eq in E3. subst g. apply (zden_ext s _ pempty); [exact DE|].
+           pose proof (zden_unique s _ Q pempty DG DE) as Hq. intros S. simpl. rewrite (Hq S).
+           unfold pempty. tauto.
+        -- apply Hgo; apply ref_eqb_false; assumption.
+  - (* diff *)
+    destruct (ref_eqb f g) eqn:E1; simpl.
+    + apply ref_eqb_eq in E1. subst g. apply (zden_ext s _ pempty); [exact DE|].
+      pose proof (zden_unique s f P Q DF DG) as Hpq. intros S. simpl. rewrite <- (Hpq S).
+      unfold pempty. tauto.
+    + destruct (ref_eqb f (RT te)) eqn:E2.
+      * apply ref_eqb_eq in E2. subst f. apply (zden_ext s _ pempty); [exact DE|].
+        pose proof (zden_unique s _ P pempty DF DE) as Hp. intros S. simpl. rewrite (Hp S).
+        unfold pempty. tauto.
+      * destruct (ref_eqb g (RT te)) eqn:E3.
+        -- apply ref_eqb_eq in E3. subst g. apply (zden_ext s f P); [exact DF|].
+           pose proof (zden_unique s _ Q pempty DG DE) as Hq. intros S. simpl. rewrite (Hq S).
+           unfold pempty. tauto.
+        -- apply Hgo; apply ref_eqb_false; assumption.
+Qed.
